@@ -141,9 +141,18 @@ class C11(runner.Prop):
             if gen.insertion_mode(cfg):
                 ctx.label('made_in_insertion_mode')
             if case['remote'] is None:
-                compare_loaded(pickle.loads(blob), spec, ms, ctx, 'same_process_in_mode')
+                try:
+                    in_mode = pickle.loads(blob)
+                except Exception as e:  # noqa: BLE001
+                    ctx.fail('same_process_in_mode/loads_raises', f'{type(e).__name__}: {e}; spec={spec}')
+                else:
+                    compare_loaded(in_mode, spec, ms, ctx, 'same_process_in_mode')
         # loaded *outside* the dict-order mode block
-        loaded = pickle.loads(blob)
+        try:
+            loaded = pickle.loads(blob)
+        except Exception as e:  # noqa: BLE001
+            ctx.fail('same_process/loads_raises', f'{type(e).__name__}: {e}; spec={spec}')
+            return
         compare_loaded(loaded, spec, ms, ctx, 'same_process')
         # the mode of the *loading* context must not matter either: a spec made with sorted dicts is loaded inside
         # an insertion-ordered block (global, and the spec's own namespace), compared outside it
@@ -188,8 +197,12 @@ class C11(runner.Prop):
             compare_loaded(copy.copy(spec), spec, ms, ctx, 'copy')
             compare_loaded(copy.deepcopy(spec), spec, ms, ctx, 'deepcopy')
             st_ = spec.__getstate__()
-            again = pickle.loads(pickle.dumps(loaded, protocol=proto))
-            compare_loaded(again, spec, ms, ctx, 'second_round_trip')
+            try:
+                again = pickle.loads(pickle.dumps(loaded, protocol=proto))
+            except Exception as e:  # noqa: BLE001
+                ctx.fail('second_round_trip/raises', f'{type(e).__name__}: {e}; spec={spec}')
+            else:
+                compare_loaded(again, spec, ms, ctx, 'second_round_trip')
             if not isinstance(st_, tuple):
                 ctx.fail('getstate/type', repr(type(st_)))
             return
